@@ -341,7 +341,7 @@ def run(ctx):
         ctx.ob("step/encodable", None, "Storage<T> step cannot be encoded: %s" % str(ex)[:300])
         paths = 0
     if not ctx.violations:
-        res = kani.run_many(hs, cap_s=300 if ctx.tier == "quick" else 1500)
+        res = kani.run_many(hs, cap_s=1200 if ctx.tier == "quick" else 3000)
         kani.settle(ctx, res, lambda h: "storage_u8" if "u8" in h else ("storage_odd" if "odd" in h else "storage_keyed"))
         ctx.extra["states"] = (sum(r.checks_total for r in res.values()) or 1) + paths
     else:
